@@ -260,9 +260,16 @@ AfterBump(x) == IF inCall /\ Expired THEN [after EXCEPT ![x] = @ + 1] ELSE after
 AfterOk(a) == a["poll"] <= 2 /\ a["write"] <= 2 /\ a["out"] <= 2 /\ a["err"] <= 2
 SpinOk(n) == n <= 6
 
+\* C04: under a deadline no poll may ask to wait beyond it (to the millisecond granularity of the call): a wait that
+\* is restarted with its full timeout after an interruption, or an unbounded one, lets the call overrun its limit
+\* clk = the library's latest clock reading, fresh = it was taken after the previous wait.  (The wait is not measured
+\* from the instant the poll really starts: a thread may be held up between computing the timeout and the call.)
+PollWaitOk(tmo, clk, fresh) ==
+  ~inCall \/ dl = NoTime \/ (tmo >= 0 /\ (tmo = 0 \/ (fresh /\ TLe(TAdd(clk, Ms(tmo)), TAdd(dl, Ms(1))))))
+
 \* poll returns: fds = polled streams, tmo in ms (-1 = infinite), t0 = instant of the call,
 \* rev = [s \in fds -> set of flags]
-PPoll(fds, tmo, t0, rev) ==
+PPoll(fds, tmo, t0, rev, clk, fresh) ==
   /\ \A s \in fds : s \in piped /\ pOpen[s]
   /\ TLe(t0, now)
   /\ \A s \in fds : rev[s] = Revents(s)
@@ -272,8 +279,16 @@ PPoll(fds, tmo, t0, rev) ==
          n == noProg + 1
      IN /\ after' = a /\ noProg' = n
         /\ viol' = viol \cup V(AfterOk(a), "C04_bounded") \cup V(SpinOk(n), "C01_no_spin")
+                        \cup V(PollWaitOk(tmo, clk, fresh), "C04_poll_wait_within_deadline")
   /\ UNCHANGED <<piped, cap, k, short, input, flood, buf, pOpen, cOpen, cPend, cAlive, now, inCall, limit, dl,
                  sawEof, written, delivered, inAcc, cRecv, cEof, pwDone, sanity>>
+
+\* a poll(tmo) was interrupted by a signal (EINTR): nothing happened in the kernel, but the wait it
+\* asked for is judged like that of a poll that returned
+PPollEintr(tmo, clk, fresh) ==
+  /\ viol' = viol \cup V(PollWaitOk(tmo, clk, fresh), "C04_poll_wait_within_deadline")
+  /\ UNCHANGED <<piped, cap, k, short, input, flood, buf, pOpen, cOpen, cPend, cAlive, now, inCall, limit, dl,
+                 sawEof, written, delivered, inAcc, cRecv, cEof, pwDone, after, noProg, sanity>>
 
 \* the library blocks in a system call (it has to wait for the environment)
 PBlock ==
